@@ -1115,6 +1115,12 @@ func main() {
 			add("POST", "/no/such/route", "unrouted")
 			add("GET", "/ready/extra", "unrouted")
 			add("GET", "/loki", "unrouted")
+			// paths that are not in canonical form: gorilla/mux answers 301 (cleanPath) before matching anything
+			for _, up := range []string{"//ready", "/ready/../ready", "/./ready", "/ready/.", "/..", "/ready//", "/loki/api/v1/../v1/labels", "/metrics/../ready", "//"} {
+				add("GET", up, "unclean-path")
+			}
+			add("POST", "/loki//api/v1/push", "unclean-path")
+			add("OPTIONS", "//ready", "unclean-path")
 			k := 0
 			emit := func(kind, class, rclass string, q Req) {
 				id++
